@@ -174,6 +174,11 @@ func TestDirect(t *testing.T) {
 		}
 		orig := append([]part(nil), in...)
 		out := framework_helper.SortOrderedComponents(in)
+		for i := range in {
+			if in[i] != orig[i] {
+				t.Fatalf("SortOrderedComponents changed its INPUT slice at position %d (the callers keep using it, e.g. a loader list shared by two containers)", i)
+			}
+		}
 		seq := make([]int, len(out))
 		for i, p := range out {
 			seq[i] = p.ident().id
@@ -206,6 +211,17 @@ type RunNO struct{ NO }
 func (r *RunNO) Run() error     { r.hit(); return nil }
 func (r *RunNO) Naming() string { return r.name }
 
+// stateless runners (zero-size types: all such objects share one address)
+var zrHits [3]int
+
+type ZR0 struct{}
+type ZR1 struct{}
+type ZR2 struct{}
+
+func (*ZR0) Run() error { zrHits[0]++; return nil }
+func (*ZR1) Run() error { zrHits[1]++; return nil }
+func (*ZR2) Run() error { zrHits[2]++; return nil }
+
 type RunMO struct{ MO }
 
 func (r *RunMO) Run() error     { r.hit(); return nil }
@@ -232,6 +248,9 @@ func TestRunners(t *testing.T) {
 				}
 			}
 		}
+		nz := rapid.IntRange(0, 3).Draw(t, "stateless")
+		zrHits = [3]int{}
+		comps = append(comps, []any{&ZR0{}, &ZR1{}, &ZR2{}}[:nz]...)
 		comps = rapid.Permutation(comps).Draw(t, "regorder")
 		out := kit.RunApp(app.SetComponents(comps...))
 		if !out.OK() {
@@ -239,6 +258,11 @@ func TestRunners(t *testing.T) {
 		}
 		if err := checkSeq(specs, log); err != nil {
 			t.Fatalf("runner invocation sequence: %v", err)
+		}
+		for i := 0; i < 3; i++ {
+			if want := map[bool]int{true: 1, false: 0}[i < nz]; zrHits[i] != want {
+				t.Fatalf("stateless runner %d (of %d registered) was invoked %d times, want %d: every participant appears exactly once", i, nz, zrHits[i], want)
+			}
 		}
 		d, nt, labels := describe("runners", specs)
 		kit.Rec.Case(d, nt, labels...)
@@ -293,6 +317,15 @@ func TestLoaders(t *testing.T) {
 		}
 		if err := checkSeq(specs, log); err != nil {
 			t.Fatalf("loader invocation sequence (a replaced loader has id %d): %v", len(specs)+100, err)
+		}
+		// the same loaders (the same slice) configure a second container of this process: same sequence again
+		log = nil
+		out = kit.RunApp(app.SetConfigLoader(ls...))
+		if !out.OK() {
+			t.Fatalf("second container: Run failed: %v", out)
+		}
+		if err := checkSeq(specs, log); err != nil {
+			t.Fatalf("loader invocation sequence in a second container built from the same loader slice: %v", err)
 		}
 		d, nt, labels := describe("loaders", specs)
 		kit.Rec.Case(d, nt, labels...)
